@@ -415,7 +415,21 @@ fn g_stmt(rng: &mut Rng, out: &mut Vec<String>, depth: u32) {
         9 => out.push(format!("{}:", rng.pick(&["L1", "L2", "A", "10"]))),
         10 => out.push(format!("{} {}", rng.pick(&["INPUT", "LINE INPUT", "READ", "INPUT #1,", "LINE INPUT #1,"]), g_lvalue(rng))),
         11 => out.push(format!("DATA {}", rng.pick(&["1, 2", "\"a\", b", "", "1.5", "-1, abc"]))),
-        12 => out.push(format!("{} {}-{}", rng.pick(&["DEFINT", "DEFSTR", "DEFDBL", "DEFLNG", "DEFSNG"]), rng.pick(&["A", "F", "S"]), rng.pick(&["T", "X", "Z"]))),
+        12 => {
+            // letter ranges in either case and either order, single letters and lists of both
+            let letters = ["A", "B", "C", "F", "M", "S", "T", "X", "Y", "Z", "a", "b", "c", "f", "m", "s", "t", "x", "y", "z"];
+            let kw = *rng.pick(&["DEFINT", "DEFSTR", "DEFDBL", "DEFLNG", "DEFSNG"]);
+            let n = 1 + rng.below(3);
+            let mut parts = vec![];
+            for _ in 0..n {
+                if rng.chance(1, 3) {
+                    parts.push((*rng.pick(&letters)).to_owned());
+                } else {
+                    parts.push(format!("{}-{}", rng.pick(&letters), rng.pick(&letters)));
+                }
+            }
+            out.push(format!("{} {}", kw, parts.join(", ")));
+        }
         13 => out.push(if rng.chance(1, 8) {
             (*rng.pick(&["WEND", "NEXT", "LOOP", "END IF", "END SUB", "ELSE", "CASE 1", "EXIT FOR", "END FUNCTION", "END SELECT", "END TYPE"])).to_owned()
         } else {
